@@ -456,7 +456,9 @@ class Interp:
         elif op in ('sitofp', 'uitofp'):
             a = V(I.a, I.sty)
             if rt(I.ty).k not in ('double', 'float'): raise Unsupported('long double arithmetic')
-            if is_sym(a): regs[I.dest] = toR(a)
+            if is_sym(a):
+                if is_bool(a): regs[I.dest] = z3.If(a, z3.RealVal(-1 if op == 'sitofp' else 1), z3.RealVal(0))    # i1 true is -1 as a signed value
+                else: regs[I.dest] = toR(a)
             else:
                 w = rt(I.sty).w
                 if op == 'sitofp' and a >> (w - 1): a -= 1 << w
@@ -580,6 +582,14 @@ class Interp:
             if op == 'add': return a + b
             if op == 'sub': return a - b
             if op == 'mul': return a * b
+            if op == 'shl' and z3.is_int_value(b) and 0 <= b.as_long() < w:
+                st.events.append(('assume', 'symbolic integer shl does not wrap')); return a * (1 << b.as_long())
+            if op == 'or' and z3.is_int_value(b) and b.as_long() >= 0 and z3.is_app_of(a, z3.Z3_OP_MUL) and any(z3.is_int_value(c) and c.as_long() % (1 << max(1, b.as_long().bit_length())) == 0 for c in a.children()):
+                return a + b          # (x * 2^k) | c with c < 2^k: the bits are disjoint
+            if op == 'xor' and z3.is_int_value(b) and b.as_long() == -1: return -a - 1
+            if op == 'xor' and z3.is_int_value(a) and a.as_long() == -1: return -b - 1
+            if op in ('sdiv',) and z3.is_int_value(b) and b.as_long() > 0:
+                return z3.If(a >= 0, a / b, -((-a) / b))
             raise Unsupported('symbolic integer op ' + op)
         if op == 'add': r = a + b
         elif op == 'sub': r = a - b
@@ -658,9 +668,13 @@ class Interp:
         st.events.append(('sqrt', a, len(st.pc)))
         r = st.new_real('sqrt'); st.pc.append(r >= 0); st.pc.append(r * r == a); st.defs.append(('sqrt', r, a))
         return r
-    def fabs(s, a):
+    def fabs(s, a, st=None):
         if isinstance(a, float): return abs(a)
-        a = toR(a); return z3.If(a >= 0, a, -a)
+        a = toR(a)
+        if s.resolve_selects and st is not None:
+            if not s.feasible(st.pc, a < 0): return a
+            if not s.feasible(st.pc, a > 0): return -a
+        return z3.If(a >= 0, a, -a)
     def pow(s, b, e, st):
         if isinstance(b, float) and isinstance(e, float):
             try: return math.pow(b, e)
@@ -710,7 +724,7 @@ class Interp:
     def intrinsic(s, nm, args, st):
         if nm.startswith(('llvm.lifetime', 'llvm.invariant', 'llvm.dbg', 'llvm.experimental.noalias', 'llvm.prefetch')): return [(st, None)]
         if nm.startswith('llvm.assume'): return [(st, None)]
-        if nm.startswith('llvm.fabs'): return [(st, s.fabs(args[0]))]
+        if nm.startswith('llvm.fabs'): return [(st, s.fabs(args[0], st))]
         if nm.startswith('llvm.sqrt'): return [(st, s.sqrt(args[0], st))]
         if nm.startswith('llvm.pow.'): return [(st, s.pow(args[0], args[1], st))]
         if nm.startswith('llvm.powi'): return [(st, s.pow(args[0], float(sgn(args[1], 32)), st))]
@@ -817,7 +831,7 @@ class Interp:
             st.events.append(('diag', nm[:40])); return [(st, args[0] if args else None)]
         if nm in ('_ZNSt8ios_base4InitC1Ev', '_ZNSt8ios_base4InitD1Ev'): return [(st, None)]
         if nm == 'sqrt' : return [(st, s.sqrt(args[0], st))]
-        if nm == 'fabs': return [(st, s.fabs(args[0]))]
+        if nm == 'fabs': return [(st, s.fabs(args[0], st))]
         if nm == 'pow': return [(st, s.pow(args[0], args[1], st))]
         if nm in ('floor', 'ceil', 'trunc', 'round'): return s.intrinsic('llvm.%s.f64' % nm, args, st)
         if nm in ('fmin', 'fmax'): return s.intrinsic('llvm.%snum.f64' % nm[1:], args, st)
